@@ -212,16 +212,85 @@ fn classify_err(stderr: &str) -> &'static str {
     else { "err:other" }
 }
 
-fn history(jj_bin: &Path, tmp_root: &Path, h: u64, mut r: Rng, steps: usize, trace: bool) -> Vec<Event> {
-    let mut ev: Vec<Event> = vec![];
-    let base = tempfile::Builder::new().prefix("jjverif-c41-").tempdir_in(tmp_root).unwrap();
-    let base_path = base.path().to_path_buf();
+/// A prepared repository (`jj git init` + a few one-operation commands) that the scripted undo/redo words copy
+/// instead of re-initialising; `n` = jj invocations spent on it (the copies continue the command clock from there).
+struct Template { dir: tempfile::TempDir, n: u64 }
+
+fn init_base(jj_bin: &Path, base_path: &Path) -> Result<Jj, String> {
     std::fs::create_dir_all(base_path.join("home")).unwrap();
     std::fs::create_dir_all(base_path.join("tmp")).unwrap();
     std::fs::write(base_path.join("config.toml"), "[git]\ncolocate = false\n[ui]\ncolor = \"never\"\n").unwrap();
-    let mut jj = Jj { bin: jj_bin.to_path_buf(), base: base_path.clone(), repo: base_path.join("repo"), n: 0 };
-    let (ok, err) = jj.run_in(&base_path, &sv(&["git", "init", "repo"]));
-    if !ok { ev.push(Event::OracleFail { sig: "undo:harness-cannot-init", detail: err }); return ev; }
+    let mut jj = Jj { bin: jj_bin.to_path_buf(), base: base_path.to_path_buf(), repo: base_path.join("repo"), n: 0 };
+    let (ok, err) = jj.run_in(base_path, &sv(&["git", "init", "repo"]));
+    if ok { Ok(jj) } else { Err(err) }
+}
+
+fn make_template(jj_bin: &Path, tmp_root: &Path) -> Result<Template, String> {
+    let dir = tempfile::Builder::new().prefix("jjverif-c41-tpl-").tempdir_in(tmp_root).unwrap();
+    let mut jj = init_base(jj_bin, dir.path())?;
+    // the `c c c` prefix of every word: three operations with three different visible states
+    for args in [sv(&["new", "-m", "t1"]), sv(&["bookmark", "set", "-B", "tb", "-r", "@"]), sv(&["commit", "-m", "t3"])] {
+        let (ok, err) = jj.run(&args);
+        if !ok { return Err(err); }
+    }
+    Ok(Template { n: jj.n, dir })
+}
+
+fn copy_dir(from: &Path, to: &Path) {
+    std::fs::create_dir_all(to).unwrap();
+    for e in std::fs::read_dir(from).unwrap() {
+        let e = e.unwrap();
+        let ft = e.file_type().unwrap();
+        let dst = to.join(e.file_name());
+        if ft.is_dir() { copy_dir(&e.path(), &dst); }
+        else if ft.is_symlink() { std::os::unix::fs::symlink(std::fs::read_link(e.path()).unwrap(), &dst).unwrap(); }
+        else { std::fs::copy(e.path(), &dst).unwrap(); }
+    }
+}
+
+/// The deterministic family run before the random histories: every word `c c c w` with `w` over
+/// {u = `jj undo`, r = `jj redo`, c = a command that creates exactly one operation and a new visible state},
+/// 4 ≤ |w| ≤ `max_len`, that never redoes with an empty redo stack, has ≥ 2 `u` and ≥ 1 `r`, starts with `u`
+/// (a leading `c` only lengthens the prefix) and ends with `u`/`r` (a trailing `c` is checked by nothing).
+/// Every step of a word is checked, so only the prefix-maximal words are run.
+fn scripted_words(max_len: usize) -> Vec<String> {
+    let mut words: Vec<String> = vec![];
+    for len in 4..=max_len {
+        let mut idx = vec![0usize; len];
+        'all: loop {
+            let w: String = idx.iter().map(|i| ['u', 'r', 'c'][*i]).collect();
+            let mut fut = 0usize;
+            let mut valid = true;
+            for ch in w.chars() { match ch { 'u' => fut += 1, 'r' => if fut == 0 { valid = false; break } else { fut -= 1 }, _ => fut = 0 } }
+            if valid && w.starts_with('u') && !w.ends_with('c') && w.matches('u').count() >= 2 && w.contains('r') { words.push(w); }
+            let mut k = len;
+            loop { if k == 0 { break 'all; } k -= 1; idx[k] += 1; if idx[k] < 3 { break; } idx[k] = 0; }
+        }
+    }
+    let all = words.clone();
+    words.retain(|w| !all.iter().any(|o| o.len() > w.len() && o.starts_with(w.as_str())));
+    words
+}
+
+/// One history: `steps` random commands in a fresh repository, or (with `script`) the word's commands in a copy of the template.
+fn history(jj_bin: &Path, tmp_root: &Path, h: u64, mut r: Rng, steps: usize, trace: bool, script: Option<(&Template, &str)>) -> Vec<Event> {
+    let mut ev: Vec<Event> = vec![];
+    let base = tempfile::Builder::new().prefix("jjverif-c41-").tempdir_in(tmp_root).unwrap();
+    let base_path = base.path().to_path_buf();
+    let word: Option<Vec<u8>> = script.map(|(_, w)| w.as_bytes().to_vec());
+    let steps = word.as_ref().map_or(steps, |w| w.len());
+    let mut jj = match script {
+        Some((tpl, _)) => {
+            copy_dir(tpl.dir.path(), &base_path);
+            Jj { bin: jj_bin.to_path_buf(), base: base_path.clone(), repo: base_path.join("repo"), n: tpl.n }
+        }
+        None => match init_base(jj_bin, &base_path) {
+            Ok(jj) => jj,
+            Err(err) => { ev.push(Event::OracleFail { sig: "undo:harness-cannot-init", detail: err }); return ev; }
+        },
+    };
+    // label used in failure details
+    let h: String = match script { Some((_, w)) => format!("{h} (scripted word ccc{w})"), None => h.to_string() };
 
     let mut log = Log::default();
     let loader = open_loader(&jj.repo);
@@ -234,14 +303,16 @@ fn history(jj_bin: &Path, tmp_root: &Path, h: u64, mut r: Rng, steps: usize, tra
     let mut msg = 0;
     let mut exc: HashMap<CommitId, CommitId> = HashMap::new();
 
-    for _step in 0..steps {
+    for step in 0..steps {
         let loader = open_loader(&jj.repo);
         let head_before = { let hs = log.refresh(&loader); *hs.last().unwrap() };
         let n_heads_before = loader.op_heads_store().get_op_heads().block_on().unwrap().len();
         let cur_view = log.ops[head_before].view.clone();
         let vis = visible_commits(&loader, &cur_view);
         let pick = |r: &mut Rng| -> String { if vis.is_empty() { "@".to_string() } else { r.pick(&vis).hex() } };
-        let tested: Option<Tested> = if n_heads_before == 1 && log.ops.len() > 3 && r.chance(9, 20) {
+        let tested: Option<Tested> = if let Some(w) = &word {
+            match w[step] { b'u' => Some(Tested::Undo), b'r' => Some(Tested::Redo), _ => None }
+        } else if n_heads_before == 1 && log.ops.len() > 3 && r.chance(9, 20) {
             // redo mostly where it can do something (right after an undo / a redo); revert mostly of the latest operation or
             // of an operation that moved neither heads nor working copies (the merges the model covers)
             let after_undo = !matches!(log.ops[head_before].desc, Desc::Regular);
@@ -257,13 +328,21 @@ fn history(jj_bin: &Path, tmp_root: &Path, h: u64, mut r: Rng, steps: usize, tra
         } else { None };
 
         // sometimes edit a file first: the command then snapshots the working copy before doing its own work
-        let edit_file = r.chance(1, if tested.is_some() { 8 } else { 4 });
+        let edit_file = word.is_none() && r.chance(1, if tested.is_some() { 8 } else { 4 });
         if edit_file { std::fs::write(jj.repo.join(format!("f{}", r.below(3))), format!("{h}-{}\n", r.next() % 1000)).unwrap(); }
 
         match tested {
             None => {
                 msg += 1;
-                let args: Vec<String> = match r.below(17) {
+                let args: Vec<String> = if word.is_some() {
+                    // scripted `c`: exactly one operation and a visible state never seen before
+                    match r.below(4) {
+                        0 => sv(&["new", "-m", &format!("m{msg}")]),
+                        1 => sv(&["describe", "-m", &format!("m{msg}")]),
+                        2 => sv(&["commit", "-m", &format!("c{msg}")]),
+                        _ => sv(&["bookmark", "set", "-B", &format!("s{msg}"), "-r", "@"]),
+                    }
+                } else { match r.below(17) {
                     0 | 1 => vec!["new".into(), pick(&mut r)],
                     2 => { let a = pick(&mut r); let b = pick(&mut r); if a != b { vec!["new".into(), a, b] } else { vec!["new".into()] } }
                     3 | 4 => vec!["describe".into(), "-r".into(), pick(&mut r), "-m".into(), format!("m{msg}")],
@@ -281,7 +360,7 @@ fn history(jj_bin: &Path, tmp_root: &Path, h: u64, mut r: Rng, steps: usize, tra
                             let at = log.ops[r.range(2, log.ops.len() - 1)].id.hex();
                             vec!["new".into(), "--at-op".into(), at]
                         } else { sv(&["status"]) },
-                };
+                } };
                 let (_ok, _err) = jj.run(&args);
                 let loader = open_loader(&jj.repo);
                 let before = log.ops.len();
@@ -296,7 +375,7 @@ fn history(jj_bin: &Path, tmp_root: &Path, h: u64, mut r: Rng, steps: usize, tra
             Some(t) => {
                 // the documented exception: make every commit immutable for this command, so that the restored working-copy
                 // commit is immutable whatever it is (never together with a pending file edit: the snapshot would hit it first)
-                let want_imm = !edit_file && r.chance(1, 6);
+                let want_imm = word.is_none() && !edit_file && r.chance(1, 6);
                 let mut args: Vec<String> = match &t {
                     Tested::Undo => sv(&["undo"]),
                     Tested::Redo => sv(&["redo"]),
@@ -474,20 +553,32 @@ pub fn run(cfg: &Cfg, out: &mut Out) {
     let tmp_root: PathBuf = if Path::new("/dev/shm").is_dir() { "/dev/shm".into() } else { std::env::temp_dir() };
     let n_hist = cfg.n(24, 300);
     let steps = 22;
+    // scripted undo/redo words first (ids 1000000 + index), then the random histories (ids 0..n_hist)
+    let words = scripted_words(if cfg.tier == Tier::Quick { 6 } else { 7 });
+    let template = match make_template(&jj_bin, &tmp_root) {
+        Ok(t) => t,
+        Err(e) => { out.oracle_fail("undo:harness-cannot-init", format!("template: {e}")); return; }
+    };
+    const WORD_BASE: u64 = 1_000_000;
+    let tasks: Vec<(u64, Option<&str>)> = words.iter().enumerate().map(|(i, w)| (WORD_BASE + i as u64, Some(w.as_str())))
+        .chain((0..n_hist).map(|h| (h, None))).collect();
     let threads: usize = std::env::var("RAYON_NUM_THREADS").ok().and_then(|s| s.parse().ok()).unwrap_or(8).clamp(1, 16);
     let next = std::sync::atomic::AtomicU64::new(0);
     let results: std::sync::Mutex<Vec<(u64, Vec<Event>)>> = std::sync::Mutex::new(vec![]);
     std::thread::scope(|s| {
         for _ in 0..threads {
             s.spawn(|| loop {
-                let h = next.fetch_add(1, std::sync::atomic::Ordering::SeqCst);
-                if h >= n_hist { break; }
+                let pos = next.fetch_add(1, std::sync::atomic::Ordering::SeqCst);
+                if pos >= tasks.len() as u64 { break; }
+                let (h, word) = tasks[pos as usize];
                 if let Some(only) = cfg.only { if h != only { continue; } }
-                let ev = match guard(|| history(&jj_bin, &tmp_root, h, cfg.rng(1000 + h), steps, cfg.only.is_some())) {
+                let script = word.map(|w| (&template, w));
+                let mut ev = match guard(|| history(&jj_bin, &tmp_root, h, cfg.rng(1000 + h), steps, cfg.only.is_some(), script)) {
                     Ok(ev) => ev,
                     Err(e) => vec![Event::OracleFail { sig: "undo:harness-panic", detail: format!("history {h}: {e}") }],
                 };
-                results.lock().unwrap().push((h, ev));
+                if word.is_some() { ev.push(Event::Tally("scripted", "words".into())); }
+                results.lock().unwrap().push((pos, ev));
             });
         }
     });
@@ -507,5 +598,6 @@ pub fn run(cfg: &Cfg, out: &mut Out) {
             }
         }
     }
-    out.note(format!("{n_hist} histories of {steps} commands through the real jj binary on {threads} threads; operation log and views read in-process"));
+    out.note(format!("{} scripted undo/redo words (ccc + 4..{} of u/r/c, prefix-maximal) in copies of a template repository, then {n_hist} histories of {steps} commands, through the real jj binary on {threads} threads; operation log and views read in-process",
+        words.len(), if cfg.tier == Tier::Quick { 6 } else { 7 }));
 }
